@@ -945,3 +945,128 @@ Definition run_C03_wresolve (w : N) (first_archive : str) (f : fname_arg) (fmt :
   VL [VB true; v_wdecision (write_resolve (v_what w) first_archive f fmt a)].
 Definition run_C03_kw (w : N) (e : entry) (kw : kwargs) : val :=
   VL [VB true; v_kwargs (plugin_kw (v_what w) e kw)].
+
+(* ------------------------------------------------------------------ the command-line converter: sugar convert / convertf
+   (scripts.py:33-58 behind cli(), scripts.py:116-119, 184-188).  argparse hands over str or None for -f, -o, -fo. *)
+Definition support := (str * (bool * (bool * (bool * bool))))%type.
+Definition support_tab (w : what) : list support := match w with Seqs => SUPPORT_seqs | Fts => SUPPORT_fts end.
+Fixpoint lookup_support (f : str) (t : list support) : option (bool * (bool * (bool * bool))) :=
+  match t with
+  | [] => None
+  | (n, s) :: r => if str_eqb n f then Some s else lookup_support f r
+  end.
+Inductive cerr := EKey | EOS | ERuntime | EIndex.
+(* EPS[what][fmt].load() then the choice of the plugin function: None = fine.
+   read (main.py:347-354): read_<fmt>, else iter_<fmt>, else RuntimeError; read_fts (main.py:389-394): read_fts_<fmt> *)
+Definition readable (w : what) (f : str) : option cerr :=
+  match lookup_support f (support_tab w) with
+  | None => Some EKey                                                   (* no such entry point: KeyError *)
+  | Some (r, (i, _)) => if r || i then None else Some ERuntime
+  end.
+(* write with the default mode 'w' (main.py:435-446): write_<fmt>, else append_<fmt> per object, else RuntimeError;
+   write_fts (main.py:476-483): write_fts_<fmt> *)
+Definition writable (w : what) (f : str) : option cerr :=
+  match lookup_support f (support_tab w) with
+  | None => Some EKey
+  | Some (_, (_, (wr, ap))) => if wr || ap then None else Some ERuntime
+  end.
+(* the format read() uses: fmt.lower() if -f is given (also when it is the empty string), else the detected one *)
+Definition cli_read (w : what) (detected fmt : option str) : cerr + str :=
+  match fmt with
+  | Some x => match readable w (lower x) with Some e => inl e | None => inr (lower x) end
+  | None => match detected with
+            | None => inl EOS                                           (* Format cannot be auto-detected *)
+            | Some d => match readable w (lower d) with Some e => inl e | None => inr (lower d) end
+            end
+  end.
+(* Python's `a or b`: the empty string is false *)
+Definition truthy (o : option str) : option str := match o with Some (c :: r) => Some (c :: r) | _ => None end.
+Inductive cli_res :=
+| CErr (e : cerr)
+| CStdout (fr fw : str)                 (* print(objs.tofmtstr(fw)) *)
+| CFile (name fr fw : str).             (* objs.write(name, fmt=fw) *)
+Definition cli_emit (w : what) (fw : str) (ok : cli_res) : cli_res :=
+  match writable w fw with Some e => CErr e | None => ok end.
+(* nobj: how many objects the input holds (objs[0] of an empty collection is an IndexError) *)
+Definition cli_convert (w : what) (detected : option str) (nobj : nat) (fmt out fmtout : option str) : cli_res :=
+  match cli_read w detected fmt with
+  | inl e => CErr e
+  | inr fr =>
+      match out with
+      | None =>
+          (* objs.tofmtstr(fmtout or fmt or objs[0].meta._fmt) = write(objs, None, that) *)
+          let chosen := match truthy fmtout, truthy fmt with
+                        | Some x, _ => Some x
+                        | None, Some x => Some x
+                        | None, None => match nobj with O => None | S _ => Some fr end
+                        end in
+          match chosen with
+          | None => CErr EIndex
+          | Some x => match write_resolve w [] FNone (Some x) ANone with
+                      | WToStr fw => cli_emit w fw (CStdout fr fw)
+                      | _ => CErr EOS                                   (* not reachable *)
+                      end
+          end
+      | Some name =>
+          (* objs.write(name, fmt=fmtout) *)
+          match write_resolve w [] (FStr name) fmtout ANone with
+          | WFile n fw => cli_emit w fw (CFile n fr fw)
+          | _ => CErr EOS                                               (* WErrDetect: extension names no format *)
+          end
+      end
+  end.
+
+(* the same as a first-match table, written independently *)
+Definition is_some {A} (o : option A) : bool := match o with Some _ => true | None => false end.
+Definition cli_table (w : what) (detected : option str) (nobj : nat) (fmt out fmtout : option str) : cli_res :=
+  (* R: the format the input is read in *)
+  let R := match fmt with Some x => Some (lower x) | None => option_map lower detected end in
+  (* W: the format the output is written in *)
+  let W := match out with
+           | Some name => match fmtout with Some x => Some (lower x) | None => option_map lower (detect_ext w name) end
+           | None => match truthy fmtout, truthy fmt with
+                     | Some x, _ => Some (lower x)
+                     | None, Some x => Some (lower x)
+                     | None, None => match nobj with O => None | S _ => R end
+                     end
+           end in
+  match R with
+  | None => CErr EOS                                                      (* row 1: -f omitted and nothing detected *)
+  | Some r =>
+      match readable w r with
+      | Some e => CErr e                                                  (* row 2: unknown name / plugin cannot read *)
+      | None =>
+          match W with
+          | None => CErr (match out with Some _ => EOS | None => EIndex end)   (* row 3: unknown extension; row 4: empty input *)
+          | Some fw =>
+              match writable w fw with
+              | Some e => CErr e                                          (* row 5: unknown name / plugin cannot write *)
+              | None => match out with
+                        | None => CStdout r fw                            (* row 6 *)
+                        | Some name => CFile name r fw                    (* row 7 *)
+                        end
+              end
+          end
+      end
+  end.
+
+Definition v_cerr (e : cerr) : val :=
+  VE (match e with EKey => bs "KeyError"%bs | EOS => bs "OSError"%bs | ERuntime => bs "RuntimeError"%bs | EIndex => bs "IndexError"%bs end).
+Definition v_cli (r : cli_res) : val :=
+  match r with
+  | CErr e => v_cerr e
+  | CStdout fr fw => VL [VS (bs "stdout"%bs); VS fr; VS fw]
+  | CFile n fr fw => VL [VS (bs "file"%bs); VS n; VS fr; VS fw]
+  end.
+(* domain: -f, if given and a known format, names the format the file really has (another plugin would be asked to parse
+   foreign content); the output name is not empty *)
+Definition wf_cli (w : what) (detected fmt out : option str) : bool :=
+  match fmt with
+  | Some x => match readable w (lower x) with
+              | None => match detected with Some d => str_eqb (lower x) (lower d) | None => false end
+              | Some _ => true
+              end
+  | None => true
+  end && match out with Some [] => false | _ => true end.
+Definition run_C03_cli (w : N) (detected : option str) (nobj : nat) (fmt out fmtout : option str) : val :=
+  VL [VB (wf_cli (v_what w) detected fmt out); v_cli (cli_convert (v_what w) detected nobj fmt out fmtout)].
